@@ -101,10 +101,10 @@ def run(ctx) -> None:
     seen: T.Set[str] = set()
     upd = prog.function("cli._update")
     roots = []
-    for call, t in prog.calls_in(upd):
-        if t.kind == "func" and t.fn is not None and "FS_WRITE" in effects.effects_of(t.fn.fq) \
-                and t.fn.module.name in ENGINES:
-            roots.append(t.fn.fq)
+    for fq in sorted(effects.reachable_functions([upd.fq])):
+        f = prog.function(fq)
+        if f.module.name in ENGINES and any(s.effect == "FS_WRITE" for s in effects.sites[fq]):
+            roots.append(fq)
     ctx.floor("R1", "rewrite entry points called from cli._update", len(set(roots)), 2)
     n_before = len(ctx.obligations)
     _order_rule(ctx, "cli._update", 0, seen)
@@ -158,7 +158,7 @@ def run(ctx) -> None:
     neff = shapes.node_effects_lazy(prog, effects, cfg, cfgs.types("cli._update"))
     mut_nodes = [nid for nid, e in neff.items() if any(k.startswith("VCS_MUTATE") or k == "HOOK" for k in e)]
     rw_nodes = [nid for nid, e in neff.items() if "FS_WRITE" in e and any(_is_v(k, c) for k, c in e.items())]
-    ctx.floor("R3", "rewrite call nodes in cli._update", len(rw_nodes), 2)
+    ctx.floor("R3", "rewrite call nodes in cli._update", len(rw_nodes), 1)
     ctx.floor("R3", "VCS-mutating call nodes in cli._update", len(mut_nodes), 1)
     for rw in rw_nodes:
         exc_targets = [dst for dst, lab in cfg.succ[rw] if lab == ("exc",) and dst != cfg.raise_exit]
